@@ -156,10 +156,16 @@ def _inline_once_temps(fn):
     return fn
 
 
+def _straighten_in_place(fn):
+    # (a value hoisted inside a branch goes back first, so that the branch is the one store the fold reads; the fold may leave
+    # `v = a if c else b; T = v` behind, which goes back in turn)
+    return _inline_once_temps(_fold_cond_assigns(_inline_once_temps(_join_dict_stores(_inline_once_temps(_untuple(fn))))))
+
+
 def straighten(fn):
     """a copy of a function with tuple assignments split, `if c: T = a else: T = b` as a conditional expression, successive stores into
     a fresh dict as the display, and a value hoisted into a once-used local back in place (the everyday re-spellings of ONE store)"""
-    return _inline_once_temps(_fold_cond_assigns(_join_dict_stores(_untuple(copy.deepcopy(fn)))))
+    return _straighten_in_place(copy.deepcopy(fn))
 
 
 def straighten_module(pkg, file):
@@ -168,7 +174,7 @@ def straighten_module(pkg, file):
     if file not in cache:
         mod = copy.deepcopy(pkg.modules[file])
         for fn in [x for x in ast.walk(mod) if isinstance(x, (ast.FunctionDef, ast.AsyncFunctionDef))]:
-            _inline_once_temps(_fold_cond_assigns(_join_dict_stores(_untuple(fn))))
+            _straighten_in_place(fn)
         cache[file] = mod
     return cache[file]
 
@@ -179,7 +185,7 @@ def straightened(pkg, cls, meth, keep=()):
     cache = pkg.__dict__.setdefault("_c20_straight", {})
     key = (cls, meth, tuple(sorted(keep)))
     if key not in cache:
-        cache[key] = _inline_once_temps(_fold_cond_assigns(_untuple(copy.deepcopy(pkg.expanded(cls, meth, keep=keep)))))
+        cache[key] = _straighten_in_place(copy.deepcopy(pkg.expanded(cls, meth, keep=keep)))
     return cache[key]
 
 
@@ -220,7 +226,7 @@ def _plain(pkg, cls, meth):
     import copy
     cache = pkg.__dict__.setdefault("_c20_plain", {})
     if (cls, meth) not in cache:
-        cache[(cls, meth)] = _join_dict_stores(_untuple(copy.deepcopy(pkg.method(cls, meth))))
+        cache[(cls, meth)] = _join_dict_stores(_inline_once_temps(_untuple(copy.deepcopy(pkg.method(cls, meth)))))
     return cache[(cls, meth)]
 
 
@@ -310,7 +316,7 @@ def _render_handle(pkg):
     if "fn" not in cache:
         import copy
         from ..normalize import expand_kwargs_dicts, _ExprInliner
-        fn = _join_dict_stores(_untuple(copy.deepcopy(pkg.expanded("RenderCommand", "handle", keep=("option", "confirm", "call", "line", "argument")))))
+        fn = _join_dict_stores(_inline_once_temps(_untuple(copy.deepcopy(pkg.expanded("RenderCommand", "handle", keep=("option", "confirm", "call", "line", "argument"))))))
 
         def helper(call):
             f = call.func
@@ -334,7 +340,7 @@ def _init_handle(pkg):
     if "fn" not in cache:
         import copy
         from ..normalize import expand_kwargs_dicts
-        fn = _join_dict_stores(_untuple(copy.deepcopy(pkg.expanded("InitCommand", "handle", keep=("option", "validate")))))
+        fn = _join_dict_stores(_inline_once_temps(_untuple(copy.deepcopy(pkg.expanded("InitCommand", "handle", keep=("option", "validate"))))))
         try:
             expand_kwargs_dicts(fn)           # BaseConfiguration(name, **settings) with `settings` a display of the function
         except RecursionError:
@@ -350,7 +356,7 @@ def _example_handle(pkg):
     cache = pkg.__dict__.setdefault("_example_handle", {})
     if "fn" not in cache:
         import copy
-        cache["fn"] = _inline_once_temps(_join_dict_stores(_untuple(copy.deepcopy(pkg.expanded("ExampleCommand", "handle", keep=("option", "choice", "confirm", "call", "line", "argument"))))))
+        cache["fn"] = _inline_once_temps(_join_dict_stores(_inline_once_temps(_untuple(copy.deepcopy(pkg.expanded("ExampleCommand", "handle", keep=("option", "choice", "confirm", "call", "line", "argument")))))))
     return cache["fn"]
 
 
